@@ -418,6 +418,7 @@ impl<F: NttFriendlyFieldElement, S: ParallelSumGadget<F, Mul>> Histogram<F, S> {
         if !length.is_multiple_of(chunk_length) {
             gadget_calls += 1;
         }
+        check_parallel_sum_lengths(chunk_length, gadget_calls)?;
 
         Ok(Self {
             length,
@@ -626,6 +627,7 @@ impl<F: NttFriendlyFieldElement, S: ParallelSumGadget<F, Mul>> MultihotCountVec<
 
         // Gadget calls is ⌈meas_length / chunk_length⌉
         let gadget_calls = meas_length.div_ceil(chunk_length);
+        check_parallel_sum_lengths(chunk_length, gadget_calls)?;
 
         Ok(Self {
             length: num_buckets,
@@ -871,6 +873,7 @@ impl<F: NttFriendlyFieldElement, S: ParallelSumGadget<F, Mul>> SumVec<F, S> {
         if flattened_len % chunk_length != 0 {
             gadget_calls += 1;
         }
+        check_parallel_sum_lengths(chunk_length, gadget_calls)?;
 
         Ok(Self {
             len,
@@ -1026,6 +1029,26 @@ pub(crate) fn decode_result_vec<F: NttFriendlyFieldElement>(
         return Err(FlpError::Decode("unexpected input length".into()));
     }
     Ok(data.iter().map(|elem| F::Integer::from(*elem)).collect())
+}
+
+/// Checks that the proof and verifier lengths implied by a ParallelSum-based circuit's parameters
+/// are representable, so that the length accessors and the prover cannot overflow.
+pub(crate) fn check_parallel_sum_lengths(
+    chunk_length: usize,
+    gadget_calls: usize,
+) -> Result<(), FlpError> {
+    gadget_calls
+        .checked_add(1)
+        .and_then(usize::checked_next_power_of_two)
+        .and_then(|wire_poly_len| wire_poly_len.checked_mul(2))
+        .and_then(|gadget_poly_len| gadget_poly_len.checked_add(chunk_length.checked_mul(2)?))
+        .and_then(|proof_len| proof_len.checked_add(2))
+        .map(|_| ())
+        .ok_or_else(|| {
+            FlpError::InvalidParameter(
+                "chunk_length and measurement length overflow the proof length".to_string(),
+            )
+        })
 }
 
 /// This evaluates range checks on a slice of field elements, using a ParallelSum gadget evaluating
